@@ -39,4 +39,99 @@ def safeTpl (f : Fmt) (sym : FnSym) : Bool :=
 def allSafe (fns : List FnSym) : Bool :=
   fns.all fun sym => Fmt.all.all fun f => safeTpl f sym
 
+
+/-! ### marker structure (for `seq_replace_ok`) -/
+
+/-- no two consecutive `%` -/
+def noPP : List Ch → Bool
+  | 37 :: 37 :: _ => false
+  | _ :: r => noPP r
+  | [] => true
+
+/-- text that can be inserted anywhere without creating or hiding a marker -/
+def clean (s : List Ch) : Bool := noPP s && s.getLast? != some 37
+
+def regularGo : Bool → List Piece → Bool
+  | _, [] => true
+  | afterHole, .lit s :: ps =>
+      clean s && !s.isEmpty &&
+      (!afterHole || match s with
+                     | c :: _ => c != 37 && !isDigit c
+                     | [] => false) && regularGo false ps
+  | afterHole, .hole _ :: ps => !afterHole && regularGo true ps
+
+def regularTpl (f : Fmt) (sym : FnSym) : Bool :=
+  regularGo false (splitMarkers sym.arity (sym.tplOf f))
+
+/-! ### token boundaries around holes (NoGlue) -/
+
+def litHead (s : List Ch) : List Ch := s.take 1
+
+/-- non-alphanumeric characters a rendering may start with (from the table) -/
+def firstList (fns : List FnSym) (tms : List TmSym) (f : Fmt) : List Ch :=
+  (fns.flatMap fun sym => match splitMarkers sym.arity (sym.tplOf f) with
+                          | .lit s :: _ => litHead s
+                          | _ => []) ++
+  40 :: (tms.flatMap fun t => match t.disp.getD f.idx [] with
+                              | .lit s :: _ => litHead (wrapNeg s)
+                              | _ => [])
+
+/-- may a rendering start with `c`? -/
+def firstOk (fl : List Ch) (c : Ch) : Bool :=
+  isLetter c || isDigit c || c == 34 || fl.contains c
+
+/-- in state `st`, does every admissible first character start a fresh token? -/
+def sepBefore (f : Fmt) (fl : List Ch) : LS → Bool
+  | .idle => true
+  | .inOp c0 => fl.all fun c => !isOpCh c || (twoOp f c0 c).isNone
+  | _ => false
+
+/-- states a rendering may leave the scanner in -/
+def endOk : LS → Bool
+  | .idle => true
+  | .inId _ => true
+  | .inNum a => !lastIsE a
+  | _ => false
+
+/-- after a rendering (state `endOk`), does `d` start a fresh token? -/
+def sepAfter (d : Ch) : Bool := !isLetter d && !isDigit d && d != 46 && d != 34
+
+def noGlueGo (f : Fmt) (fl : List Ch) : LS → Bool → List Piece → Bool
+  | st, _, [] => endOk st
+  | st, afterHole, .lit s :: ps =>
+      (!afterHole || match s with
+                     | d :: _ => sepAfter d
+                     | [] => false) &&
+      noGlueGo f fl (run f (if afterHole then .idle else st) (s.map LCh.c)).2 false ps
+  | st, _, .hole _ :: ps => sepBefore f fl st && (ps.isEmpty || noGlueGo f fl .idle true ps)
+
+/-- NoGlue for one template: token boundaries at both sides of every hole, a first character
+    that is admissible itself, and an admissible final scanner state -/
+def noGlueTpl (f : Fmt) (fl : List Ch) (sym : FnSym) : Bool :=
+  let ps := splitMarkers sym.arity (sym.tplOf f)
+  (match ps with
+   | .lit (c :: _) :: _ => firstOk fl c
+   | .hole _ :: _ => true
+   | _ => false) &&
+  noGlueGo f fl .idle false ps
+
+def allRegular (fns : List FnSym) : Bool :=
+  fns.all fun sym => Fmt.all.all fun f => regularTpl f sym
+
+def allNoGlue (fns : List FnSym) (tms : List TmSym) : Bool :=
+  fns.all fun sym => Fmt.all.all fun f => noGlueTpl f (firstList fns tms f) sym
+
+/-- what a terminal's text must satisfy to take part in the theorems -/
+def termSyn (f : Fmt) (fl : List Ch) (s : List Ch) : Bool :=
+  (match s with
+   | c :: _ => firstOk fl c
+   | [] => false) &&
+  endOk (run f .idle (s.map LCh.c)).2 &&
+  (match parse f (lexS f s) with
+   | some a => flat a == lexS f s && ok f hl a && decide (hl ≤ lvl f hl a) && holesIn 0 a &&
+               stripOk (lexS f s) a
+   | none => false)
+
+def termOk (f : Fmt) (fl : List Ch) (s : List Ch) : Bool := clean s && termSyn f fl s
+
 end Vita.C19
